@@ -84,6 +84,11 @@ impl DependencyGraph {
         loop {
             if let Some(result) = me.wait_results.remove(&from_id) {
                 debug_assert!(!me.edges.contains_key(&from_id));
+                #[cfg(feature = "salsa_verif")]
+                me.verif_emit(verif::Op::Resumed {
+                    thread: verif::tid(from_id),
+                    result: verif::res(result),
+                });
                 return result;
             }
             me = cvar.wait(me);
@@ -115,6 +120,12 @@ impl DependencyGraph {
             .entry(database_key)
             .or_default()
             .push(from_id);
+        #[cfg(feature = "salsa_verif")]
+        self.verif_emit(verif::Op::Blocked {
+            thread: verif::tid(from_id),
+            query: verif::key(database_key),
+            on_thread: verif::tid(to_id),
+        });
     }
 
     /// Invoked when runtime `to_id` completes executing
@@ -124,6 +135,11 @@ impl DependencyGraph {
         database_key: DatabaseKeyIndex,
         wait_result: WaitResult,
     ) {
+        #[cfg(feature = "salsa_verif")]
+        self.verif_emit(verif::Op::ReleaseQuery {
+            query: verif::key(database_key),
+            result: verif::res(wait_result),
+        });
         let dependents = self
             .query_dependents
             .remove(&database_key)
@@ -140,6 +156,11 @@ impl DependencyGraph {
     fn unblock_runtime(&mut self, id: ThreadId, wait_result: WaitResult) {
         let edge = self.edges.remove(&id).expect("not blocked");
         self.wait_results.insert(id, wait_result);
+        #[cfg(feature = "salsa_verif")]
+        self.verif_emit(verif::Op::Unblocked {
+            thread: verif::tid(id),
+            result: verif::res(wait_result),
+        });
 
         // Now that we have inserted the `wait_results`,
         // notify the thread.
@@ -181,6 +202,11 @@ impl DependencyGraph {
         }
 
         unblock_recursive(self, database_key, wait_result);
+        #[cfg(feature = "salsa_verif")]
+        self.verif_emit(verif::Op::ReleaseTransferredOwnedBy {
+            query: verif::key(database_key),
+            result: verif::res(wait_result),
+        });
     }
 
     pub(super) fn undo_transfer_lock(&mut self, database_key: DatabaseKeyIndex) {
@@ -190,6 +216,10 @@ impl DependencyGraph {
                 .unwrap()
                 .remove(&database_key);
         }
+        #[cfg(feature = "salsa_verif")]
+        self.verif_emit(verif::Op::UndoTransfer {
+            query: verif::key(database_key),
+        });
     }
 
     /// Recursively resolves the thread id that currently owns the lock for `database_key`.
@@ -336,10 +366,24 @@ impl DependencyGraph {
         debug_assert!(!all_dependents.contains(&new_owner));
         all_dependents.push(query);
 
+        #[cfg(feature = "salsa_verif")]
+        dg.verif_emit(verif::Op::Transfer {
+            query: verif::key(query),
+            by_thread: verif::tid(current_thread),
+            new_owner: verif::key(new_owner),
+            new_owner_thread: verif::tid(new_owner_thread),
+            thread_changed,
+        });
+
         if thread_changed {
             tracing::debug!("Unblocking new owner of transfer target {new_owner:?}");
             dg.unblock_transfer_target(query, new_owner_thread);
             dg.update_transferred_edges(query, new_owner_thread);
+            #[cfg(feature = "salsa_verif")]
+            dg.verif_emit(verif::Op::TransferEdgesUpdated {
+                query: verif::key(query),
+                new_owner_thread: verif::tid(new_owner_thread),
+            });
 
             // Block on the new owner, unless new owner is blocked on this query.
             // This is necessary to avoid a race between `fetch` completing and `provisional_retry` blocking on the
@@ -446,6 +490,128 @@ impl DependencyGraph {
             query,
             new_owner_thread,
         )
+    }
+}
+
+/// Verification hook H2: a read-only trace of the wait / transfer protocol (events plus a copy of
+/// the dependency-graph state after each event), delivered to a sink registered by the external
+/// model-checking harness. Without a registered sink this does nothing.
+#[cfg(feature = "salsa_verif")]
+pub mod verif {
+    use super::*;
+
+    pub type Key = (u32, u64);
+
+    #[derive(Clone, Debug, PartialEq, Eq)]
+    pub enum Op {
+        Blocked { thread: String, query: Key, on_thread: String },
+        Unblocked { thread: String, result: u8 },
+        Resumed { thread: String, result: u8 },
+        ReleaseQuery { query: Key, result: u8 },
+        ReleaseTransferredOwnedBy { query: Key, result: u8 },
+        UndoTransfer { query: Key },
+        Transfer { query: Key, by_thread: String, new_owner: Key, new_owner_thread: String, thread_changed: bool },
+        TransferEdgesUpdated { query: Key, new_owner_thread: String },
+        /// Emitted by the sync table (no dependency-graph state attached).
+        Claim { thread: String, query: Key, how: &'static str },
+        /// Emitted by the sync table when a claim is given up.
+        Release { thread: String, query: Key, result: u8, anyone_waiting: bool, claimed_twice: bool, is_transfer_target: bool },
+    }
+
+    /// Canonical (sorted) copy of the dependency-graph state.
+    #[derive(Clone, Debug, PartialEq, Eq, Default)]
+    pub struct Dump {
+        pub edges: Vec<(String, String)>,
+        pub query_dependents: Vec<(Key, Vec<String>)>,
+        pub wait_results: Vec<(String, u8)>,
+        pub transferred: Vec<(Key, (String, Key))>,
+        pub transferred_dependents: Vec<(Key, Vec<Key>)>,
+    }
+
+    type Sink = Box<dyn Fn(&Op, &Dump) + Send + Sync>;
+    static SINK: std::sync::RwLock<Option<Sink>> = std::sync::RwLock::new(None);
+
+    /// Register the sink (process-global).
+    pub fn set_sink(sink: Sink) {
+        *SINK.write().unwrap_or_else(|e| e.into_inner()) = Some(sink);
+    }
+
+    pub(super) fn with_sink(f: impl FnOnce(&Sink)) {
+        if let Some(s) = SINK.read().unwrap_or_else(|e| e.into_inner()).as_ref() {
+            f(s)
+        }
+    }
+
+    /// Events of the sync table (outside the dependency-graph lock).
+    pub(crate) fn emit_sync(op: impl FnOnce() -> Op) {
+        with_sink(|sink| sink(&op(), &Dump::default()));
+    }
+
+    pub(crate) fn current_tid() -> String {
+        tid(crate::sync::thread::current().id())
+    }
+
+    pub(crate) fn res_pub(r: WaitResult) -> u8 {
+        res(r)
+    }
+
+    pub(crate) fn key_pub(k: DatabaseKeyIndex) -> Key {
+        key(k)
+    }
+
+    pub(super) fn tid(id: ThreadId) -> String {
+        format!("{id:?}")
+    }
+
+    pub(super) fn key(k: DatabaseKeyIndex) -> Key {
+        (k.ingredient_index().as_u32(), k.key_index().as_bits())
+    }
+
+    pub(super) fn res(r: WaitResult) -> u8 {
+        match r {
+            WaitResult::Completed => 0,
+            WaitResult::Panicked => 1,
+            WaitResult::Cancelled => 2,
+        }
+    }
+}
+
+#[cfg(feature = "salsa_verif")]
+impl DependencyGraph {
+    fn verif_dump(&self) -> verif::Dump {
+        let mut d = verif::Dump {
+            edges: self.edges.0.iter().map(|(k, e)| (verif::tid(*k), verif::tid(e.blocked_on_id))).collect(),
+            query_dependents: self
+                .query_dependents
+                .iter()
+                .map(|(k, v)| (verif::key(*k), v.iter().map(|t| verif::tid(*t)).collect()))
+                .collect(),
+            wait_results: self.wait_results.iter().map(|(k, r)| (verif::tid(*k), verif::res(*r))).collect(),
+            transferred: self
+                .transferred
+                .iter()
+                .map(|(k, (t, o))| (verif::key(*k), (verif::tid(*t), verif::key(*o))))
+                .collect(),
+            transferred_dependents: self
+                .transferred_dependents
+                .iter()
+                .map(|(k, v)| {
+                    let mut v: Vec<verif::Key> = v.iter().map(|q| verif::key(*q)).collect();
+                    v.sort();
+                    (verif::key(*k), v)
+                })
+                .collect(),
+        };
+        d.edges.sort();
+        d.query_dependents.sort();
+        d.wait_results.sort();
+        d.transferred.sort();
+        d.transferred_dependents.sort();
+        d
+    }
+
+    fn verif_emit(&self, op: verif::Op) {
+        verif::with_sink(|sink| sink(&op, &self.verif_dump()));
     }
 }
 
